@@ -106,6 +106,7 @@ def via_ir(mon, case, t, v, pool):
 
 def run(ctx):
     import gtirb
+    codecmon.private_serialization(gtirb, ctx)
     mon = codecmon.CodecMonitor(ctx, gtirb)
 
     def one(case):
@@ -144,4 +145,39 @@ def run(ctx):
         ctx.seen("nontrivial", ("late", case.index))
     for case in ctx.cases("late", max(50, ctx.params.get("n_rt", 400) // 100)):
         ctx.run_case(case, late)
+
+    # round trips through a *table* (AuxData object -> file -> AuxData
+    # object), the value edited in place between two of them, also deep
+    # inside tuples and variants
+    def table(case):
+        from .. import irio
+        rnd = case.rnd
+        pool = auxgen.Pool(gtirb, rnd)
+        t = auxgen.gen_type(rnd, rnd.choice([1, 2, 3]))
+        if rnd.random() < 0.5:
+            t = ("tuple", [auxgen.gen_type(rnd, rnd.choice([0, 1, 2]))
+                           for _ in range(rnd.randint(1, 3))])
+        v = auxgen.gen_value(rnd, t, pool)
+        tn = reftypes.show(t)
+        case.ops = [{"type": tn}]
+        ctx.count("cases")
+        ir = gtirb.IR()
+        ir.aux_data["t"] = gtirb.AuxData(v, tn)
+        want = refcodec.norm(refcodec.neutral(v, t))
+        for trip in range(3):
+            ir = irio.load(gtirb, irio.save(ir))
+            d = ir.aux_data["t"].data
+            ctx.count("table_round_trips")
+            if refcodec.norm(refcodec.neutral(d, t)) != want:
+                raise Discrepancy(
+                    "C07", "table-roundtrip:%s" % (
+                        "after-in-place-edit" if trip else "plain"),
+                    "a %s table read back after round trip %d is not the "
+                    "value that was stored" % (tn, trip + 1), {})
+            if auxgen.mutate_nested(rnd, d, t, pool):
+                ctx.count("table_round_trips_edited_in_place")
+                want = refcodec.norm(refcodec.neutral(d, t))
+        ctx.seen("nontrivial", ("table", tn, case.index))
+    for case in ctx.cases("table", max(60, ctx.params.get("n_rt", 400) // 20)):
+        ctx.run_case(case, table)
     mon.close()
